@@ -20,6 +20,8 @@
 (*   Coordinates/Values(all=True)    the archive: EXACTLY the evaluated     *)
 (*                                   (point, value) pairs, each once        *)
 (*   Minima()              ALL cache entries whose value is the minimum     *)
+(*   Minima(tol) coarse    ... whose value ROUNDED to tol decimals is the   *)
+(*                         rounded minimum (CoarseMinima: tol = -1)         *)
 (*   Samples(all=True)     every evaluation made by the saved sprayers, in  *)
 (*                         order, with multiplicity; Samples(): the step    *)
 (*                         monitors (best point after every member step)    *)
@@ -82,6 +84,11 @@ MinE(c) == CHOOSE e \in {c[i].e : i \in DOMAIN c} : \A i \in DOMAIN c : e <= c[i
 AllMinima(c) == IF c = << >> THEN {} ELSE {c[i].key : i \in {j \in DOMAIN c : c[j].e = MinE(c)}}
 MinimaOf(c) == IF Design = "asis_minima_one" /\ c # << >>
                THEN {c[CHOOSE i \in DOMAIN c : c[i].e = MinE(c)].key} ELSE AllMinima(c)
+(* Minima(tol) / Searcher(tol=..): an entry is a minimum if its value ROUNDED to `tol` decimals equals the rounded
+   minimum.  The model values are naturals below 5: every tol >= 0 (8 by default, but also 0) keeps them apart -- that is
+   MinimaOf above --, while a COARSE tolerance (tol = -1: tens) rounds all of them to 0 *)
+RoundTens(v) == ((v + 5) \div 10) * 10
+CoarseMinima(c) == IF c = << >> THEN {} ELSE {c[i].key : i \in {j \in DOMAIN c : RoundTens(c[j].e) = RoundTens(MinE(c))}}
 
 Evaluated(out) == Flat([i \in 1..Len(out) |-> out[i]])
 Archived(out) == IF Design = "asis_drop_last"
@@ -90,7 +97,7 @@ Archived(out) == IF Design = "asis_drop_last"
 
 Observe(ns) ==
   [cache |-> [i \in DOMAIN cache |-> cache[i].key], vals |-> [i \in DOMAIN cache |-> cache[i].e],
-   minima |-> MinimaOf(cache), archive |-> archive, nsolves |-> ns, real |-> Len(evlog),
+   minima |-> MinimaOf(cache), minimaC |-> CoarseMinima(cache), archive |-> archive, nsolves |-> ns, real |-> Len(evlog),
    nspray |-> Len(sprayers), samples |-> Flat([i \in DOMAIN sprayers |-> sprayers[i].evs]),
    steps |-> Flat([i \in DOMAIN sprayers |-> sprayers[i].steps]), traj |-> traj]
 
@@ -165,7 +172,7 @@ Reset ==
   /\ sprayers' = << >> /\ tlog' = << >> /\ bests' = IF Design = "asis_reset_keeps_cache" THEN bests ELSE {}
   /\ obs' = Append(obs, [Observe(0) EXCEPT !.cache = [i \in DOMAIN cache' |-> cache'[i].key],
                                            !.vals = [i \in DOMAIN cache' |-> cache'[i].e],
-                                           !.minima = MinimaOf(cache'), !.nspray = 0, !.samples = << >>, !.steps = << >>])
+                                           !.minima = MinimaOf(cache'), !.minimaC = CoarseMinima(cache'), !.nspray = 0, !.samples = << >>, !.steps = << >>])
   /\ UNCHANGED <<retry, repeat, traj, archive, evlog, pc, run, count, size, psize, osize, passes, nsolves, total>>
 
 UseTraj(b) ==
@@ -219,5 +226,6 @@ NeverGrowingPass == \A r \in DOMAIN passes : \A q \in DOMAIN passes[r] : Len(pas
 NeverKeyCollision == \A k \in DOMAIN hist : \A q \in DOMAIN hist[k] : \A i \in DOMAIN hist[k][q] :
                         LET b == BestOfProg(hist[k][q][i]) IN KeyOf[b] = b
 NeverSecondRun == Len(passes) <= 1
+NeverCoarseDiffers == \A k \in DOMAIN obs : obs[k].minimaC = obs[k].minima
 NeverRetryReset == \A r \in DOMAIN passes : Len(passes[r]) <= IF retry = 0 THEN 1 ELSE retry
 =============================================================================
